@@ -320,3 +320,38 @@ fn k_sctl_reenter__unsub_in_downstream_next() {
   assert!(sctl.unscribers.read().unwrap().len() == 0, "sctl.reenter: map not empty");
   kani::cover!(true, "harness reaches its end");
 }
+
+// ---- new_observer: keys of the upstream map are never reused while an earlier upstream is still registered --------------------
+// (flat_map / switch_on_next / retry register further upstreams after earlier ones have completed: a reused key would overwrite the
+// unsubscribe action of a live upstream, which then is never told to stop and is mistaken for the completed one)
+sctl_h!(k_sctl_new_observer__serial_not_reused_after_removal, 2, false, false, |r| {
+  r.up0().complete(); // -> sink_complete(&0): u0 removed, u1 still registered
+  r.assert_live(&[false, true]);
+  let u2 = upstream(r.log, &r.sctl, 2);
+  assert!(r.map_len() == 2, "sctl.frame: upstream map size differs from the contract (a new upstream replaced a registered one)");
+  assert!(r.up1().is_subscribed() && u2.is_subscribed(), "sctl.frame: liveness of an upstream observer differs from the contract");
+  r.up1().complete(); // one of two completes: the stream must stay open for the other
+  assert!(r.sctl.is_subscribed(), "sctl.sink_complete: the stream ended although an upstream is still registered");
+  assert!(r.downstream() == (0, 0), "sctl.sink_complete: something was delivered although an upstream is still registered");
+  r.sctl.finalize();
+  assert!(!u2.is_subscribed(), "sctl.end: an upstream observer is still subscribed after the subscription ended");
+  assert!(r.log.count(EV_U | 2) == 1, "sctl.end: upstream teardown did not run exactly once");
+  assert!(r.map_len() == 0, "sctl.end: upstream map not empty");
+});
+
+// ---- new_observer: every upstream observer hands EVERY event to the handlers it was created with ------------------------------
+// (recovery operators - retry, on_error_resume_next - see one upstream error per attempt through the same controller)
+#[kani::proof]
+#[kani::unwind(3)]
+fn k_sctl_new_observer__every_upstream_error_reaches_its_handler() {
+  let log = Log::new();
+  let sub = rec_observer(log);
+  let sctl = StreamController::new(sub.clone());
+  let a = sctl.new_observer(move |_s, _x: u8| {}, move |_s, e| log.push(EV_E | err_id(&e)), move |_s| {});
+  let b = sctl.new_observer(move |_s, _x: u8| {}, move |_s, e| log.push(EV_E | 0x1000 | err_id(&e)), move |_s| {});
+  let (i, j): (u8, u8) = (kani::any(), kani::any());
+  a.error(err(i));
+  b.error(err(j));
+  assert!(log.is(&[EV_E | i as u32, EV_E | 0x1000 | j as u32]), "sctl.new_observer: an upstream error did not reach the error handler the observer was created with, once, unchanged");
+  kani::cover!(true, "harness reaches its end");
+}
